@@ -156,7 +156,13 @@ def analyse(m, f, orders):
     except typestate.Limit as e:
         return {str(e)}, {}
     nzero = 0
+    # a walker that answers 0 for a NULL node before doing anything else may be called on a child without testing it: such a
+    # recursion is no event at all when the child is NULL
+    null_exits = [(ret, ps) for ret, ps in res.exits if ps.knows(('eq', '$0', 'null')) is True]
+    null_tolerant = bool(null_exits) and all(ps.auto[0] == () and ret.o and const_int(ps.lookup(_k(ret.o[0]))) == 0 for ret, ps in null_exits)
     for ret, ps in res.exits:
+        if null_tolerant and ps.knows(('eq', '$0', 'null')) is True:
+            continue
         ev, last = ps.auto
         k1 = ps.knows(('eq', children['first'], 'null'))
         k2 = ps.knows(('eq', children['second'], 'null'))
@@ -171,12 +177,16 @@ def analyse(m, f, orders):
                     expect = ('V:LEAF',)
                 else:
                     expect = ('V:PRE',) + (() if c1 else ('R:first',)) + ('V:MID',) + (() if c2 else ('R:second',)) + ('V:POST',)
+                ev0 = ev
+                if null_tolerant:
+                    ev = tuple(e for e in ev0 if not ((e == 'R:first' and c1) or (e == 'R:second' and c2)))
                 if allzero:
                     if ev != expect:
                         problems.add('with every result zero a node with children (first %s, second %s) sees the events %s instead of %s'
                                      % ('NULL' if c1 else 'present', 'NULL' if c2 else 'present', ' '.join(ev) or '(none)', ' '.join(expect)))
                 elif ev != expect[:len(ev)]:
                     problems.add('the events before an early stop, %s, are not a prefix of %s' % (' '.join(ev), ' '.join(expect)))
+                ev = ev0
         if allzero:
             if const_int(rv) != 0 and not (last != '-' and rv == ps.lookup(last)):
                 problems.add('the walker returns %s although every visit returned zero' % rv)
